@@ -464,7 +464,12 @@ func (g *gen) edit(root string) string {
 	any := func(e diskEntry) bool { return true }
 	abs := func(rel string) string { return filepath.Join(root, rel) }
 	for try := 0; try < 20; try++ {
-		switch op := r.Intn(16); op {
+		op := r.Intn(20)
+		if op >= 16 {
+			// the edits that exercise digest reuse and directory reuse get extra weight
+			op = []int{9, 9, 12, 13}[op-16]
+		}
+		switch op {
 		case 0, 1: // create
 			d, _ := pick(r, dirs, isDir)
 			kind := g.leafKind()
